@@ -98,8 +98,7 @@ class World:
         if type(x) in (int, float, complex, Decimal, Fraction):
             return f'{type(x).__name__}:{"unpassed" if x == self.w.unpassed else x}'
         if isinstance(x, type):
-            return 'warning-class' if (issubclass(x, Warning) and x is not Warning) else \
-                'exception-class' if (issubclass(x, Exception) and x is not Exception) else 'class'
+            return 'warning-class' if issubclass(x, Warning) else 'exception-class' if issubclass(x, Exception) else 'class'
         if isinstance(x, self.w.FrozenDict):
             e = self.enc[i]
             return 'FrozenDict' + ('' if e[4] else '-unhashable') + (f'[float:{e[1] if isinstance(e[1], str) else "other"},'
